@@ -296,7 +296,7 @@ func evConstBool(v ssa.Value) int {
 
 func checkC06(c *Ctx) {
 	r, p := c.R, c.P
-	r.Explanation = "Decides structural necessary conditions of C06 on events/queue, over the events of the mechanism along every path of the exported entry points and of the loop goroutine with all same-package helpers inlined (constructs resolved by role, not by unexported name): (Q1) the queue field of Processor is only used with the Processor mutex held; (Q2) atomic exit: on every path of the loop goroutine, between observing the queue empty (Peek's ok result false) under the lock and giving up the running token the lock is never released — otherwise an Enqueue in that window finds the loop 'still running' and its item is stranded — and every exit gives the token up exactly once; (Q3) an item is popped only in the critical section in which the head was re-checked to be the very item the loop decided on (object identity), and the callback receives the popped value; (Q4) Close waits for the loop goroutine on every path and, on the path that wins the stopped flag, closes the stop channel and then takes the running token; the loop goroutine is started only on a path that took the token, after wg.Add, and calls wg.Done on every exit; (Q5) the item popped is one established due: on the branch 'ScheduledTime().Sub(clock.Now()) < K' with K <= 500µs, or after the timer armed with that same duration fired; (Q6) Enqueue inserts with replace=true and on every path attempts to take the token (start the loop) under the lock afterwards; when the token is not available a reset signal can be posted; (Q7) the heap orders by scheduled time ascending; (Q8) the token/reset channels have one slot, and a received reset leads to a fresh Peek before anything is armed, popped or executed; every wait on the item's timer also listens for the reset signal. NOT decided: exactly-once / ordering over all histories, timer accuracy, that the head-changed flag is computed correctly."
+	r.Explanation = "Decides structural necessary conditions of C06 on events/queue, over the events of the mechanism along every path of the exported entry points and of the loop goroutine with all same-package helpers inlined (constructs resolved by role, not by unexported name): (Q1) the queue field of Processor is only used with the Processor mutex held; (Q2) atomic exit: on every path of the loop goroutine, between observing the queue empty (Peek's ok result false) under the lock and giving up the running token the lock is never released — otherwise an Enqueue in that window finds the loop 'still running' and its item is stranded — and every exit gives the token up exactly once; (Q3) an item is popped only in the critical section in which the head was re-checked to be the very item the loop decided on (object identity), and the callback receives the popped value; (Q4) Close waits for the loop goroutine on every path and, on the path that wins the stopped flag, closes the stop channel and then takes the running token; the loop goroutine is started only on a path that took the token, after wg.Add, and calls wg.Done on every exit; (Q5) the item popped is one established due: on a branch that bounds ScheduledTime().Sub(clock.Now()) by at most 500µs — written on the Duration itself, through its Nanoseconds/Microseconds/Milliseconds/Seconds/Minutes/Hours accessors, int64(d) or d/unit (truncation accounted for: d.Milliseconds() < 1 admits 999999 ns), or as Before/After against clock.Now().Add(K) — or after the timer armed with that same duration fired; (Q6) Enqueue inserts with replace=true and on every path attempts to take the token (start the loop) under the lock afterwards; when the token is not available a reset signal can be posted; (Q7) the heap orders by scheduled time ascending; (Q8) the token/reset channels have one slot, and a received reset leads to a fresh Peek before anything is armed, popped or executed; every wait on the item's timer also listens for the reset signal. NOT decided: exactly-once / ordering over all histories, timer accuracy, that the head-changed flag is computed correctly."
 	r.Assumptions = append(r.Assumptions, "type-based lock and channel identity", "container/heap implements a min-heap over Less", "helpers are followed through static calls, defer and go of functions of the same package; function values stored in variables are not followed")
 	r.Rule("C06.Q1-guard", "the Processor's queue only under the Processor's mutex", 3)
 	r.Rule("C06.Q2-atomic-exit", "no unlock between 'queue empty' and release of the running token; token released exactly once per exit", 2)
@@ -762,6 +762,116 @@ func evInvolvesTime(res evResolver, v evVal, depth int) bool {
 
 const c06MaxEarly = 500000 // ns
 
+// c06DurationTest decodes the left side of `e < K` / `e <= K` (strict tells
+// which) where e is a time.Duration or a number derived from one:
+//
+//	d                          (nanoseconds)
+//	d.Nanoseconds(), int64(d)  (nanoseconds)
+//	d.Microseconds(), d.Milliseconds(), d / unit   (truncated to a unit)
+//	d.Seconds(), d.Minutes(), d.Hours()            (floating point)
+//
+// and returns the duration value together with the largest duration, in
+// nanoseconds, that still passes the test (`d.Milliseconds() < 1` passes up to
+// 999999 ns; `d.Milliseconds() <= 0` likewise).
+func c06DurationTest(res evResolver, e evVal, kc *ssa.Const, strict bool) (evVal, int64, bool) {
+	unit := int64(1)
+	float := false
+	cur := e
+	for i := 0; i < 6; i++ {
+		switch x := cur.V.(type) {
+		case *ssa.Convert:
+			// int64(d), float64(d.Milliseconds()), time.Duration(n) ...: numeric value unchanged up to truncation
+			if b, ok := x.Type().Underlying().(*types.Basic); ok && b.Info()&types.IsFloat != 0 {
+				float = true
+			}
+			cur = res(cur.F, x.X)
+			continue
+		case *ssa.BinOp:
+			if x.Op != token.QUO {
+				return evVal{}, 0, false
+			}
+			uc, ok := res(cur.F, x.Y).V.(*ssa.Const)
+			if !ok || uc.Value == nil || uc.Value.Kind() != constant.Int || uc.Int64() <= 0 {
+				return evVal{}, 0, false
+			}
+			if unit > (1<<62)/uc.Int64() {
+				return evVal{}, 0, false
+			}
+			unit *= uc.Int64()
+			cur = res(cur.F, x.X)
+			continue
+		case *ssa.Call:
+			name := evCalleeName(x)
+			if !callIs(x, "time", "Duration", name) || len(x.Call.Args) != 1 {
+				break
+			}
+			u := int64(0)
+			switch name {
+			case "Nanoseconds":
+				u = 1
+			case "Microseconds":
+				u = 1e3
+			case "Milliseconds":
+				u = 1e6
+			case "Seconds":
+				u, float = 1e9, true
+			case "Minutes":
+				u, float = 60e9, true
+			case "Hours":
+				u, float = 3600e9, true
+			}
+			if u == 0 || unit > (1<<62)/u {
+				return evVal{}, 0, false
+			}
+			unit *= u
+			cur = res(cur.F, x.Call.Args[0])
+			continue
+		}
+		break
+	}
+	if namedKey(cur.V.Type()) != "time.Duration" {
+		return evVal{}, 0, false
+	}
+	// the largest duration passing the test
+	switch kc.Value.Kind() {
+	case constant.Int:
+		k := kc.Int64()
+		if float || unit == 1 {
+			// exact comparison of (a multiple of) the value
+			if k > (1<<62)/unit || k < -(1<<62)/unit {
+				return evVal{}, 0, false
+			}
+			if strict {
+				return cur, k*unit - 1, true
+			}
+			return cur, k * unit, true
+		}
+		// truncation towards zero: e < k  <=>  d < k*unit (k > 0), e <= k <=> e < k+1
+		if !strict {
+			k++
+		}
+		if k > (1<<62)/unit || k < -(1<<62)/unit {
+			return evVal{}, 0, false
+		}
+		if k <= 0 {
+			return cur, (k - 1) * unit, true
+		}
+		return cur, k*unit - 1, true
+	case constant.Float:
+		f, _ := constant.Float64Val(kc.Value)
+		ns := f * float64(unit)
+		if ns > 1e18 || ns < -1e18 {
+			return evVal{}, 0, false
+		}
+		n := int64(ns)
+		if float64(n) < ns || !strict {
+			return cur, n, true
+		}
+		return cur, n - 1, true
+	}
+	return evVal{}, 0, false
+}
+
 // c06LoopItems explores the loop goroutine and decides Q3 (pop in the critical
 // section that re-checked the head; callback gets the popped value) and Q5
 // (what is popped was established due).
@@ -914,8 +1024,10 @@ func c06LoopItems(c *Ctx, ro *c06Roles, q3, q5 bool) {
 					d, k = Y, X
 				}
 				if kc, ok := k.V.(*ssa.Const); ok && kc.Value != nil {
-					if item, ok := c06DeadlineItem(res, d); ok {
-						return setDue(item, kc.Int64()), true
+					if dur, maxEarly, ok := c06DurationTest(res, d, kc, op == token.LSS || op == token.GTR); ok {
+						if item, ok := c06DeadlineItem(res, dur); ok {
+							return setDue(item, maxEarly), true
+						}
 					}
 				}
 			}
